@@ -600,6 +600,13 @@ def _radix_value(vals, v):
     return cases
 
 
+@adapter("substr")
+def _substr(vals, v):
+    text = "h\u00e9l\U0001F60Eo"
+    return [{"source": "std.substr(%s, %d, %d)" % (json.dumps(text), f, l), "oracle": {"oracle": "stdout_json_equals", "expected": text[f:f + l]}}
+            for f in range(0, 7) for l in range(0, 7)]
+
+
 @adapter("crop")
 def _crop(vals, v):
     """every small crop size (and the counterexample's, clipped) on a run-time error with a 12-frame trace"""
